@@ -18,6 +18,7 @@ import fickling.hook as hook  # noqa: E402
 from fickling.exception import UnsafeFileError  # noqa: E402
 
 FLAGGED = b"cverif_sink\nhit\n(S'probe'\ntR."
+MLONLY = b"(cfractions\nFraction\ncdatetime\ndate\nl."      # LIKELY_SAFE for the static check, not on the ML allowlist
 ADD = ["verif_nat.Plain", "collections.Counter"]
 
 
@@ -26,17 +27,17 @@ def reset():
     pickle.Unpickler = ORIG_UNPICKLER
 
 
-def probe(i):
+def probe(i, data=FLAGGED):
     n0 = len(verif_sink.calls)
     try:
         if i == 0:
-            pickle.load(io.BytesIO(FLAGGED))
+            pickle.load(io.BytesIO(data))
         elif i == 1:
-            pickle.loads(FLAGGED)
+            pickle.loads(data)
         elif i == 2:
-            _pickle.load(io.BytesIO(FLAGGED))
+            _pickle.load(io.BytesIO(data))
         else:
-            _pickle.loads(FLAGGED)
+            _pickle.loads(data)
         out = "returned"
     except UnsafeFileError:
         out = "refused"
@@ -49,7 +50,8 @@ def probe(i):
 def observe():
     cur = (pickle.load, pickle.loads, _pickle.load, _pickle.loads)
     pr = [probe(i) for i in range(4)]
-    return {"blocks": [o == "refused" and not r for o, r in pr], "orig": [c is o for c, o in zip(cur, ORIG)],
+    ml = [probe(i, MLONLY) for i in range(4)]
+    return {"mlblocks": [o == "refused" for o, _r in ml], "blocks": [o == "refused" and not r for o, r in pr], "orig": [c is o for c, o in zip(cur, ORIG)],
             "probe": [o + ("+ran" if r else "") for o, r in pr]}
 
 
